@@ -24,7 +24,10 @@ def run(prop, ctx):
     if os.environ.get("SKETCHNU_VERIF_NO_IR") != "1":
         try:
             from . import numba_ir
-            extra.update(numba_ir.crosscheck(prop, ctx))
-        except ImportError:
-            pass
+            ir = numba_ir.crosscheck(prop, ctx)
+            extra.update(ir)
+            for e in (ir.get("numba_typed_ir") or {}).get("errors", []):
+                st["errors"].append("typed-IR premise: " + e)
+        except ImportError as e:
+            print("  typed-IR cross-check skipped: %s" % e)
     return st, extra
